@@ -133,7 +133,10 @@ def run(ctx):
     controls.order(ctx, "C06.sites")
     ctx.assumptions += ["HashMap/HashSet/BinaryHeap semantics; Ord of Int, MilliSecondsSinceUnixEpoch and event ids is total",
                         "reviewed reasons in spec/order_allow.json (one per order-sensitive consumer)",
-                        "resolve's precondition that all events belong to one room (one m.room.create) - see the creator cache entry"]
+                        "resolve's precondition that all events belong to one room (one m.room.create) - see the creator cache entry",
+                        "every event whose sender level is looked up lists the room's m.room.create among its auth_events (an event that does not is rejected on "
+                        "receipt and never part of a state set): for such an event get_power_level_for_sender answers users_default or the user's level depending "
+                        "on whether the shared creator cache was filled before - read, not decided (pointed out by a seeding sub-agent)"]
     ctx.samples += [{"site": "resolve: all_conflicted.iter().filter(..).cloned().collect::<Vec<_>>() (control_events)", "discharge": "only fed into the graph (HashMap) of the Kahn sort"}]
 
 
